@@ -8,10 +8,12 @@ requests
                 1 = DoAverageBead(ignore, selfWeight).run_molecule(mol) (selfWeight: - | 0 (False) | xname)
     ffVar       - | xname      (force_field.variables['center_weight'])
     bead        [ graph weights ]   graph: - | [ atom* ]   weights: - | [ [ key rat ]* ]
-    atom        [ key pos [ [ xname rat ]* ] ]   pos: - | [ rat rat rat ]
+    atom        [ key pos [ [ xname rat ]* ] ]   pos: - | [ c c c ]   c: - (not finite) | rat
+  hist <selfWeight> <ignoreMissing> [ [ ffVar [ bead* ] ]* ]    one DoAverageBead object, several molecules
     rat         [ num den ]
 responses
   keyerror | valueerror | ok [ res* ]    res: - (untouched) | [ ] (NaN) | [ qx qy qz ] (units of 2^-30)
+  hist: the outcomes joined by " | "
 -/
 
 def ratOf (t : Tok) : Option Rat := do
@@ -21,10 +23,15 @@ def ratOf (t : Tok) : Option Rat := do
       if dn = 0 then none else pure (mkRat (← n.int?) dn)
   | _ => none
 
-def posOf (t : Tok) : Option (Option (V3 Rat)) :=
+def coordOfTok (t : Tok) : Option (Option Rat) :=
   match t with
   | Tok.none => some none
-  | Tok.list [a, b, c] => do pure (some ⟨← ratOf a, ← ratOf b, ← ratOf c⟩)
+  | t => (ratOf t).map some
+
+def posOf (t : Tok) : Option (Option (V3 (Option Rat))) :=
+  match t with
+  | Tok.none => some none
+  | Tok.list [a, b, c] => do pure (some ⟨← coordOfTok a, ← coordOfTok b, ← coordOfTok c⟩)
   | _ => none
 
 def attrOf (t : Tok) : Option (String × Rat) := do
@@ -34,7 +41,7 @@ def attrOf (t : Tok) : Option (String × Rat) := do
 
 def atomOf (t : Tok) : Option (Atom Rat) := do
   match ← t.list? with
-  | [k, p, as] => pure { key := ← k.int?, pos := ← posOf p, attrs := ← (← as.list?).mapM attrOf }
+  | [k, p, as] => pure { key := ← k.int?, coords := ← posOf p, attrs := ← (← as.list?).mapM attrOf }
   | _ => none
 
 def wentryOf (t : Tok) : Option (Int × Rat) := do
@@ -84,6 +91,18 @@ def handle (_ : Unit) (toks : List Tok) : Unit × String :=
             | Tok.str n => pure (WeightArg.attr n)
             | _ => none
           pure (encOutcome (runMoleculeQ self ffVar ignore mol))
+    | [Tok.str "hist", selfW, ign, steps] => do
+        let ignore := (← ign.nat?) != 0
+        let self ← match selfW with
+          | Tok.none => pure WeightArg.unset
+          | Tok.int 0 => pure WeightArg.off
+          | Tok.str n => pure (WeightArg.attr n)
+          | _ => none
+        let ops ← (← steps.list?).mapM fun st => do
+          match ← st.list? with
+          | [ffv, beads] => pure (← ffv.optStr?, ← (← beads.list?).mapM beadOf)
+          | _ => none
+        pure (" | ".intercalate ((runHistoryQ ⟨ignore, self⟩ ops).map encOutcome))
     | _ => none
   ((), r.getD "bad-op")
 
